@@ -6,7 +6,7 @@
 From Coq Require Import ZArith List String Ascii Bool.
 From Model Require Import PyBase Graph Valence Tokenize TokenizePrims MappingPrims RadicalPrims ContractPrims Parser Reader SmilesAst SmilesGraph SmilesOrder SmilesText CxGroups Recheck.
 From Gen Require Import TokenTables C03Source TokenizeBody MappingBody RadicalBody ContractBody.
-From Proofs Require Import TokenizeProofs ParserProofs ReaderProofs ReaderExt ReaderExt2 DenoteProofs GraphProofs OrderProofs TextProofs CxProofs RecheckProofs RecheckTotal SourcePins TokenizeTranslated ReaderRadicals MappingTranslated RadicalTranslated ContractTranslated TranslatedReader.
+From Proofs Require Import TokenizeProofs ParserProofs ReaderProofs ReaderExt ReaderExt2 DenoteProofs GraphProofs OrderProofs TextProofs CxProofs RecheckProofs RecheckTotal SourcePins TokenizeTranslated ReaderRadicals MappingTranslated RadicalTranslated ContractTranslated TranslatedReader RecheckValid.
 Import ListNotations.
 Open Scope Z_scope.
 
@@ -659,3 +659,33 @@ Theorem C03_contract_translated_cx : forall cxs rads c R P G, cx_block cxs = Ok 
   gen_contract_roles c R P G (Z.of_nat (List.length R) + Z.of_nat (List.length P) + Z.of_nat (List.length G)) = contract_roles c R P G.
 Proof. exact contract_translated_cx. Qed.
 Print Assumptions C03_contract_translated_cx.
+
+(* ---- a VALID written hydrogen count of a non-aromatic atom is never replaced: if the valence rules accept it in the atom's own state it
+   is kept (radical flag untouched, nothing reported); a count is reported in chython_implicit_mismatch only if the atom has no valence
+   state at all or the count is invalid in its own state, and (no radical mark) invalid in the radical state too *)
+Theorem C03_recheck_valid_kept : forall fl g n a h o lab c,
+  atom_of g n = Some a -> f_keep_implicit fl = false ->
+  calc_implicit g n = Ok (Some c) -> calc_labels_atom g n = Ok lab -> l_hybridization lab <> 4 ->
+  check_implicit g n h = Ok true ->
+  recheck_atom fl g n (Some h) = Ok o ->
+  o_h o = Some h /\ o_rad o = a_rad a /\ o_radicalized o = false /\ o_mismatch o = None.
+Proof. exact recheck_valid_kept. Qed.
+Print Assumptions C03_recheck_valid_kept.
+
+Theorem C03_recheck_mismatch_invalid : forall fl g n a h h' o lab,
+  atom_of g n = Some a -> calc_labels_atom g n = Ok lab -> l_hybridization lab <> 4 ->
+  recheck_atom fl g n (Some h) = Ok o -> o_mismatch o = Some h' ->
+  h' = h /\
+  (calc_implicit g n = Ok None \/ check_implicit g n h = Ok false) /\
+  (a_rad a = false -> check_implicit (with_rad g n true) n h = Ok false).
+Proof. exact recheck_mismatch_invalid. Qed.
+Print Assumptions C03_recheck_mismatch_invalid.
+
+Theorem C03_recheck_valid_examples :
+  let fl := mkFlags true false true false in
+  show_res (show_fresult true) (read_full fl false "[S]") = "M 1={S|-|-|0|0|-}[] # 1:0"%string /\
+  show_res (show_fresult true) (read_full fl false "[Pd].[C]") = "M 1={Pd|-|-|0|0|-}[],2={C|-|-|0|0|-}[] # 1:0,2:0"%string /\
+  show_res (show_fresult true) (read_full fl false "[AlH3]") = "M 1={Al|-|-|0|3|-}[] # 1:3"%string /\
+  show_res (show_fresult true) (read_full fl false "[SH3]") = "M 1={S|-|-|0|3|-}[] # 1:3*r"%string.
+Proof. exact recheck_valid_examples. Qed.
+Print Assumptions C03_recheck_valid_examples.
